@@ -418,7 +418,8 @@ Variables E D : bytes -> bytes -> bytes.
 Hypothesis H_len : forall m, length (H m) = 20.
 Hypothesis E_len : forall k b, length (E k b) = 16.
 Hypothesis D_len : forall k b, length (D k b) = 16.
-Hypothesis DE : forall k b, length b = 16 -> D k (E k b) = b.
+(* AES-256 is a permutation of 16-byte blocks under every 32-byte key *)
+Hypothesis DE : forall k b, length k = 32 -> length b = 16 -> D k (E k b) = b.
 
 (* what DecryptMessageWithTempKeys does with anything a conformant peer (textbook IGE under the
    MTProto temp keys) produced from SHA1(payload) ++ payload ++ padding, padding 0..15 bytes *)
@@ -447,7 +448,7 @@ Proof.
   set (ct := ige_encrypt E key iv pt).
   assert (Lct : length ct = length pt) by (apply (ige_encrypt_length E E_len key iv pt n); assumption).
   rewrite (do_decrypt_is_ige D D_len key iv ct (zbuf (length ct)) n Lk Liv) by (rewrite ?zbuf_length; lia).
-  unfold ct at 1. rewrite (ige_decrypt_encrypt E D E_len D_len key iv pt n (DE key) Liv Hn).
+  unfold ct at 1. rewrite (ige_decrypt_encrypt E D E_len D_len key iv pt n (fun b Hb => DE key b (tmp_aes_key_length H H_len _ _) Hb) Liv Hn).
   rewrite skipn_all2 by (rewrite zbuf_length; lia). rewrite app_nil_r. cbn [checked obind].
   rewrite !gslice_ok by lia. cbn [obind].
   change (20 - 0) with 20. rewrite skipn_O.
